@@ -58,6 +58,7 @@ pub fn op_kind(op: &Op) -> &'static str {
         Op::ConfigObject { .. } => "ConfigObject",
         Op::Pass => "Pass",
         Op::FailFastNext => "FailFastNext",
+        Op::ForeignDir { .. } => "ForeignDir",
         Op::GeneratorOverride { .. } => "GeneratorOverride",
         Op::TamperOutput { .. } => "TamperOutput",
         Op::Wait { .. } => "Wait",
@@ -199,12 +200,27 @@ fn fresh_run(
     opts: OptSpec,
     hash_seed: u64,
 ) -> Result<(Outcome, Snapshot), String> {
-    exec::on_carrier(hash_seed, move || {
+    let result = exec::on_carrier(hash_seed, move || {
         let store = Store::new(backend, 0, &entries);
+        store.enter();
         let resources = store.resources();
         let outcome = exec::fresh_process(&resources, &opts);
         (outcome, store.snapshot())
-    })
+    });
+    // (real file system: back into the scratch directory of the history)
+    exec::go_home();
+    result
+}
+
+/// Holds the process-wide working directory for one history over the real file system.
+struct HomeGuard<'a>(Option<std::sync::MutexGuard<'a, ()>>);
+
+impl Drop for HomeGuard<'_> {
+    fn drop(&mut self) {
+        if self.0.is_some() {
+            exec::set_home(None);
+        }
+    }
 }
 
 struct PassRecord {
@@ -790,7 +806,18 @@ fn compare_in_place(
 
 pub fn run_l1(scn: &C10Scenario, stats: &mut RunStats) -> Vec<Violation> {
     let mut violations: Vec<Violation> = Vec::new();
+    // the real file system through the library: one history at a time owns the working
+    // directory of this process
+    let _home = HomeGuard(if scn.backend == Backend::RealLib {
+        Some(exec::CWD_LOCK.lock().unwrap_or_else(|e| e.into_inner()))
+    } else {
+        None
+    });
     let store = Store::new(scn.backend, scn.walk_seed, &scn.entries);
+    if let Some(root) = store.real_root() {
+        exec::set_home(Some(root));
+        store.enter();
+    }
     let resources = store.resources();
     let mut opts = scn.opts.clone();
     let in_place = is_in_place(&opts);
@@ -981,12 +1008,7 @@ pub fn run_l1(scn: &C10Scenario, stats: &mut RunStats) -> Vec<Violation> {
                         user.user_write(&p, &bytes);
                     }
                 }
-                if let Some(fs) = &sim {
-                    fs.user_rename(from, to);
-                } else if let Some(bytes) = store.user_read(from) {
-                    store.user_remove(from);
-                    store.user_write(to, &bytes);
-                }
+                store.user_rename(from, to);
                 if let Some(tree) = inc.tree.as_mut() {
                     let result = exec::catch(|| {
                         tree.remove_source(Path::new(from));
@@ -1008,6 +1030,12 @@ pub fn run_l1(scn: &C10Scenario, stats: &mut RunStats) -> Vec<Violation> {
             }
             Op::ConfigObject { text } => {
                 opts.config = ConfigSource::Object(text.clone());
+            }
+            Op::ForeignDir { path } => {
+                // somebody else creates folders in the output location: nobody is told,
+                // and from now on they are foreign content a fresh run starts with
+                store.user_mkdir(path);
+                oracle.foreign.insert(path.clone(), None);
             }
             Op::Wait { .. } => {}
             Op::FailFastNext => {
@@ -1407,6 +1435,15 @@ impl C10 {
     }
 }
 
+/// L1 histories over the real file system, appended to every batch.
+fn real_lib_runs(tier: &str) -> usize {
+    if tier == "thorough" {
+        12_000
+    } else {
+        320
+    }
+}
+
 impl Property for C10 {
     fn id(&self) -> &'static str {
         "C10"
@@ -1415,11 +1452,7 @@ impl Property for C10 {
         "exploration"
     }
     fn runs_for(&self, tier: &str) -> usize {
-        if tier == "thorough" {
-            1_000_000
-        } else {
-            30_000
-        }
+        (if tier == "thorough" { 1_000_000 } else { 30_000 }) + real_lib_runs(tier)
     }
     fn run(&self, seed: u64, index: usize, tier: &str) -> Result<RunReport, String> {
         let run_seed = run_seed(seed, "C10", tier, index);
@@ -1433,6 +1466,9 @@ impl Property for C10 {
             && index >= c10gen::enum_count(3)
             && index < c10gen::enum_count(3) + 48 * 7
             && (index - c10gen::enum_count(3)) % 7 == 0;
+        // the last indices of a batch: L1 histories over the real file system (the real
+        // `Source::FileSystem` arm through the library, in a scratch directory)
+        let real_lib = index >= self.runs_for(tier) - real_lib_runs(tier);
         let knobs = c10gen::Knobs {
             // the work-item graph is only reachable through a harness-supplied rule and
             // every use of it currently ends in a non-terminating work loop (known
@@ -1440,13 +1476,16 @@ impl Property for C10 {
             include_graph: index % 10 == 4 && std::env::var_os("VERIF_GRAPH").is_some(),
             layer: if real_watch {
                 Layer::LW
+            } else if real_lib {
+                Layer::L1
             } else if index % 4 == 3 {
                 Layer::L2
             } else {
                 Layer::L1
             },
             max_ops: 12,
-            allow_faults: true,
+            allow_faults: !real_lib,
+            real_lib,
             avoid: if real_watch {
                 let mut list = avoid.clone();
                 list.push("top-level-filter-change".to_owned());
@@ -1699,6 +1738,7 @@ impl Property for C10 {
                     Op::ConfigObject { text } => format!("ConfigObject {}", text),
                     Op::Pass => "Pass".to_owned(),
                     Op::FailFastNext => "FailFastNext".to_owned(),
+                    Op::ForeignDir { path } => format!("ForeignDir {}", path),
                     Op::GeneratorOverride { name } => format!("GeneratorOverride {:?}", name),
                     Op::TamperOutput { output, source, .. } => format!("TamperOutput {} (source {})", output, source),
                     Op::Wait { ms } => format!("Wait {}ms", ms),
